@@ -216,9 +216,15 @@ def structural(report):
 def trimming(report, tier):
     from aurel.finitedifference import FiniteDifference
     p = {'xmin': 0.0, 'ymin': 0.0, 'zmin': 0.0, 'dx': 1.0, 'dy': 1.0, 'dz': 1.0, 'Nx': 20, 'Ny': 20, 'Nz': 20}
-    for order in (2, 4, 6, 8):
+    # 3, 7, 10: undocumented orders fall back to the 4th-order scheme; the half-width is that of the scheme in use
+    for order in (2, 4, 6, 8, 3, 7, 10):
         fd = FiniteDifference(p, fd_order=order, verbose=False)
-        m = fd.mask_len
+        m = int(fd.fd_order) // 2            # stencil half-width of the scheme the object reports and applies
+        if fd.mask_len != m or (order in (2, 4, 6, 8) and fd.fd_order != order):
+            key = f'mask_len for fd_order={order}'
+            report.record(key, 'sat', group='trimming helpers: size attribute', kind='concrete')
+            report.violation(key, f"FiniteDifference(fd_order={order}) reports fd_order={fd.fd_order} but mask_len={fd.mask_len}",
+                             report.write_replay(key, dict(order=order, fd_order=fd.fd_order, mask_len=fd.mask_len)))
         for fn, k in ((fd.cutoffmask, m), (fd.cutoffmask2, 2 * m)):
             for rank in (1, 2, 3):
                 name = f"{fn.__name__} order={order} rank={rank}: removes exactly {k} points per side"
@@ -367,7 +373,7 @@ def spherical_roundtrip(report, tier):
 
 def main(report, tier, seed, workers, calibrate=False):
     report.bounds = dict(N='1,2,3,10 (quick); 1..12,16,32,64,100,128 (thorough)', min='[-1e4, 1e4]', spacing='[1e-6, 1e3]',
-                         trimming='ranks 1-3, fd_order 2-8, symbolic lengths >= 2k+1',
+                         trimming='ranks 1-3, fd_order 2-8 and the fall-back for 3, 7, 10, symbolic lengths >= 2k+1',
                          outside=['float error of the spherical round trip (exact-real claim)', 'excision helpers',
                                   'strict monotonicity of the coordinates for spacings below the float resolution of min'])
     report.assumptions += ['np.arange(N) has N entries 0..N-1 (numpy contract); np.arange(start, stop, step) has '
